@@ -53,6 +53,10 @@ M = [
     ("C12-m2", "C12", "liquid/builtin/expressions/logical.py", r"return not \(obj is False or obj is None\)", "return bool(obj) or obj == 0 and obj is not False", "empty strings and arrays become falsy"),
     ("C13-m1", "C13", "liquid/builtin/tags/for_tag.py", r"return self\.length - self\._index\n", "return self.length - self._index + 1\n", "forloop.rindex off by one"),
     ("C13-m2", "C13", "liquid/builtin/expressions/loop.py", r"context\.stopindex\(key=offset_key, index=stop_\)", "pass", "offset: continue never advances"),
+    ("C13-m3", "C13", "liquid/builtin/tags/for_tag.py", r"(render_async\((?:.|\n)*?except ContinueLoop:\n\s+)continue", r"\1break", "async only: continue leaves the loop"),
+    ("C06-m3", "C06", "liquid/builtin/tags/render_tag.py", r"(async def render_to_output_async(?:.|\n)*?)ctx\.loop_iteration_carry \*= len\(val\)", r"\1pass", "async only: render ... for does not carry its length into the partial"),
+    ("C14-m2", "C14", "liquid/builtin/tags/assign_tag.py", r"context\.assign\(self\.name, await self\.expression\.evaluate_async\(context\)\)", "v = await self.expression.evaluate_async(context)\n        context.assign(self.name, v) if self.name not in context.locals else None", "async only: assign does not rebind an existing local"),
+    ("C07-m3", "C07", "liquid/template.py", r"(async def render_async(?:.|\n)*?)buf = self\._get_buffer\(\)", r"\1buf = StringIO()", "async only: the root output buffer is unlimited"),
     ("C14-m1", "C14", "liquid/context.py", r"self\.scope = ReadOnlyChainMap\(self\.locals, self\.globals, builtin, self\.counters\)", "self.scope = ReadOnlyChainMap(self.globals, self.locals, builtin, self.counters)", "globals shadow assigned locals"),
     ("C15-m1", "C15", "liquid/builtin/tags/render_tag.py", r"disabled_tags=\[TAG_INCLUDE\],\n(\s+)carry_loop_iterations=True,", r"disabled_tags=[],\n\1carry_loop_iterations=True,", "include is allowed inside rendered partials"),
     ("C16-m1", "C16", "liquid/undefined.py", r"(    def __iter__\(self\) -> Iterator\[Any\]:\n        raise UndefinedError\(self\.msg, token=self\.token\)\n\n    def __str__\(self\) -> str:\n)        raise UndefinedError\(self\.msg, token=self\.token\)", r"\1        return '?'", "StrictUndefined prints '?' instead of raising"),
